@@ -16,7 +16,7 @@ Printer B executes the file, printer A executes what the hook results mean to Oc
 only at observations (hook results, sendCommand traffic, API responses, notifications, A/B), never at
 implementation internals; private attributes are read only to build the canonical key.
 """
-import hashlib, json, math, pickle, re
+import hashlib, io, json, math, pickle, re, types
 from fractions import Fraction as Fr
 
 from . import harness as H
@@ -96,6 +96,38 @@ def fmt(v):
     return sign + str(ip) + ("." + digits if digits else "")
 
 
+# Copies of a world are made by pickling.  Implementation state may hold objects the pickle module refuses although
+# copying them by reference is exact (functions defined inside a function, lambdas: immutable code).  Those are
+# carried by persistent id through a per-process table; everything else is pickled by value as usual.
+_FN_TABLE = {}
+
+
+class _Pickler(pickle.Pickler):
+    def persistent_id(self, obj):
+        if isinstance(obj, types.FunctionType) and ("<locals>" in obj.__qualname__ or obj.__name__ == "<lambda>"):
+            _FN_TABLE[id(obj)] = obj
+            return ("fn", id(obj))
+        return None
+
+
+class _Unpickler(pickle.Unpickler):
+    def persistent_load(self, pid):
+        return _FN_TABLE[pid[1]]
+
+
+def dumps(obj):
+    try:
+        return pickle.dumps(obj, -1)
+    except (pickle.PicklingError, AttributeError, TypeError):
+        buf = io.BytesIO()
+        _Pickler(buf, -1).dump(obj)
+        return buf.getvalue()
+
+
+def loads(data):
+    return _Unpickler(io.BytesIO(data)).load()
+
+
 def walk(o):
     """Canonical text of an object graph by generic attribute walk (DESIGN 3.3)."""
     if o is None or isinstance(o, (bool, int, str)):
@@ -122,6 +154,14 @@ def walk(o):
             k + ":" + walk(v) for k, v in sorted(d.items()) if k not in SKIP_ATTRS) + "}"
     if callable(o):
         return "callable:" + getattr(o, "__name__", o.__class__.__name__)
+    if hasattr(o, "__next__"):
+        # a live iterator kept in the state (filter/map/list iterator): what it will still yield is state
+        try:
+            red = o.__reduce__()
+        except Exception:   # noqa
+            red = None
+        if isinstance(red, tuple):
+            return "iter:" + o.__class__.__name__ + walk(list(red))
     return o.__class__.__name__
 
 
@@ -308,11 +348,11 @@ class World(object):
         self.plugin = p
 
     def snapshot(self):
-        return pickle.dumps(self, -1)
+        return dumps(self)
 
     @classmethod
     def restore(cls, snap, cfg):
-        w = pickle.loads(snap)
+        w = loads(snap)
         w.cfg = cfg
         w.install()
         return w
@@ -399,10 +439,13 @@ class World(object):
         if k == "ESET":
             unit = Fr(254, 10) if f["inch"] else Fr(1)
             return "G92 E" + ev[1], dict(e=Fr(ev[1]) * unit)
-        if k in ("TRAVEL", "PRINT", "WIPE", "TRAVELZ"):
+        if k in ("TRAVEL", "PRINT", "WIPE", "TRAVELZ", "TRAVELE"):
             x, y = self.pt(ev[1])
             words = [self._word("X", x), self._word("Y", y)]
             upd = dict(x=x, y=y)
+            if k == "TRAVELE":
+                # a travel move that repeats the current E value (some slicers write E on every line): no filament moves
+                words.append(self._eword(f["e"]))
             if k == "TRAVELZ":
                 words.append(self._word("Z", ev[2]))
                 upd["z"] = Fr(ev[2])
@@ -413,7 +456,7 @@ class World(object):
                 words.append(self._eword(f["e"] - L))
                 upd["e"] = f["e"] - L
                 upd["depth"] = f["depth"] + 1
-            return ("G0 " if k in ("TRAVEL", "TRAVELZ") else "G1 ") + " ".join(words), upd
+            return ("G0 " if k in ("TRAVEL", "TRAVELZ", "TRAVELE") else "G1 ") + " ".join(words), upd
         if k == "ZMOVE":
             return "G1 " + self._word("Z", ev[1]), dict(z=Fr(ev[1]))
         if k == "XONLY":
@@ -426,10 +469,10 @@ class World(object):
             return "G1 " + self._eword(f["e"] - L) + " F1800", dict(e=f["e"] - L, depth=f["depth"] + 1)
         if k == "RECOVER":
             return "G1 " + self._eword(f["e"] + L) + " F1800", dict(e=f["e"] + L, depth=f["depth"] - 1)
-        if k == "FWRETRACT":
-            return self.cfg.get("fw_retract", "G10 S1"), dict(fw=True)
+        if k == "FWRETRACT":        # ("FWRETRACT", spelling) overrides the scenario's spelling
+            return (ev[1] if len(ev) > 1 else self.cfg.get("fw_retract", "G10 S1")), dict(fw=True)
         if k == "FWRECOVER":
-            return self.cfg.get("fw_recover", "G11 S1"), dict(fw=False)
+            return (ev[1] if len(ev) > 1 else self.cfg.get("fw_recover", "G11 S1")), dict(fw=False)
         if k == "ESET0":
             return "G92 E0", dict(e=Fr(0))
         if k == "ARC":
@@ -484,13 +527,17 @@ class World(object):
         maxreg = self.cfg.get("maxregions", 3)
         for i, ev in enumerate(menu):
             k = ev[0]
-            if k in ("TRAVEL", "PRINT", "WIPE", "TRAVELZ", "ZMOVE", "XONLY", "YONLY", "ARC", "RETRACT",
+            if k in ("TRAVEL", "PRINT", "WIPE", "TRAVELZ", "TRAVELE", "ZMOVE", "XONLY", "YONLY", "ARC", "RETRACT",
                      "RECOVER", "FWRETRACT", "FWRECOVER", "G92XYZ", "NUDGE", "ESET", "HOME", "CIRCLE"):
                 if not (self.m_active and self.m_homed):
                     continue                               # the properties say "after homing"
-            if k in ("TRAVEL", "PRINT", "WIPE"):
+            if k in ("TRAVEL", "PRINT", "WIPE", "TRAVELE"):
                 if self.pt(ev[1]) == (f["x"], f["y"]):
                     continue
+            if k == "TRAVELE" and not f["abs"] and self.sv.g90e:
+                continue                                   # with relative E the word would be E0: a different spelling
+            if k == "SET" and ev[1] == "g90e" and (not f["abs"] or self.episode):
+                continue     # the flag says how G90/G91 are read: switched only while the file is in G90 (both readings agree)
             if k == "TRAVELZ" and self.pt(ev[1]) == (f["x"], f["y"]) and Fr(ev[2]) == f["z"]:
                 continue
             if k == "ZMOVE" and Fr(ev[1]) == f["z"]:
@@ -557,7 +604,7 @@ class World(object):
                 if ev[2] is None and self.uuid.n >= self.cfg.get("maxfresh", 2):
                     continue
             if k in ("SET", "SETBAD"):
-                cur = self.m_clear if ev[1].startswith("clear") else self.m_shrink
+                cur = {"c": self.m_clear, "m": self.m_shrink, "g": self.sv.g90e, "s": "always"}[ev[1][0]]
                 if cur == ev[2]:
                     continue
             if k == "NEWPRINT" and not self.cfg.get("newprint", True):
@@ -801,6 +848,13 @@ class World(object):
         elif key.startswith("may"):
             self.sv.shrink = value
             self.m_shrink = value
+        elif key == "g90e":
+            # OctoPrint's global feature flag, changed in the settings dialog while the plugin is loaded
+            self.sv.g90e = value
+            self.A.g90e = value
+            self.B.g90e = value
+        elif key == "save":
+            pass                 # the dialog is saved with nothing changed (or another plugin's settings were)
         else:
             raise KeyError(key)
 
@@ -998,7 +1052,7 @@ class World(object):
         # differential probes: every program of <= depth commands after homing gives identical hook output
         depth = self.cfg.get("probe_depth", 2) + (0 if ku == kf else 1)
         import itertools
-        fsnap = pickle.dumps(dict((k, v) for k, v in fresh.__dict__.items() if k != "_settings"), -1)
+        fsnap = dumps(dict((k, v) for k, v in fresh.__dict__.items() if k != "_settings"))
         usnap = used.snapshot()
 
         def run(plugin, prog):
@@ -1023,7 +1077,7 @@ class World(object):
             for prog in itertools.product(self.C10_PROBES, repeat=d):
                 up = World.restore(usnap, self.cfg).plugin
                 fp = H.PKG.ExcludeRegionPlugin.__new__(H.PKG.ExcludeRegionPlugin)
-                fp.__dict__.update(pickle.loads(fsnap))
+                fp.__dict__.update(loads(fsnap))
                 fp._settings = _shared_settings()
                 a, b = run(up, prog), run(fp, prog)
                 n += 1
@@ -1186,9 +1240,13 @@ class World(object):
                                   self._detail(f))
                     st.tags.add("printing-move")
                 if c != f.cmd and read(c)[0] in ("G10", "G11"):
-                    if self.file_g10 is None or read(c)[2] != read(self.file_g10)[2]:
-                        self.viol("C05 generated %r does not carry the parameters of the file's %r"
-                                  % (c, self.file_g10), self._detail(f))
+                    # the parameters select the kind of firmware retraction (S1 = long): a generated command carries
+                    # those of the file's latest G10 or of the retraction the printer actually executed
+                    allowed = [read(x)[2] for x in (self.file_g10, a0.last_fw_cmd) if x]
+                    if read(c)[2] not in allowed:
+                        self.viol("C05 generated %r carries neither the parameters of the file's %r nor those of the "
+                                  "retraction the printer executed (%r)" % (c, self.file_g10, a0.last_fw_cmd),
+                                  self._detail(f))
                     st.tags.add("generated-fw-cmd")
             if A.depth() > self.max_depth_b + DTOL:
                 self.viol("C05 retracted deeper (%s) than the file ever requested (%s) after %r -> %r"
@@ -1447,9 +1505,21 @@ class World(object):
         if st.ev[0] == "NEWPRINT" or (st.note and st.note[0] == "event" and
                                       st.note[1] in END_EVENTS + ("PRINT_STARTED", "FILE_SELECTED")):
             self.mon["c06_pending"] = []
-        for f in st.feeds:
+        scope = self.cfg.get("c06_scope")          # "script": only the print-end flush is judged (C15); the
+        for f in st.feeds:                         # deferral bookkeeping still follows every command
             if not f.active:
                 continue
+            if scope == "script" and f.kind != "script":
+                try:
+                    self._mon_c06_feed(st, f, modes, enter, exit_)
+                except Violation:
+                    if f.opening or f.closing:
+                        self.mon["c06_pending"] = []
+                continue
+            self._mon_c06_feed(st, f, modes, enter, exit_)
+
+    def _mon_c06_feed(self, st, f, modes, enter, exit_):
+        if True:
             if f.kind == "gcode":
                 if f.opening:
                     st.tags.add("enter-script" if enter else "episode-opened")
@@ -1587,7 +1657,7 @@ def dest_of(w, ev):
     """Nominal XY destination of a file event (None when the event does not move in X/Y)."""
     k = ev[0]
     f = w.f
-    if k in ("TRAVEL", "PRINT", "WIPE", "TRAVELZ"):
+    if k in ("TRAVEL", "PRINT", "WIPE", "TRAVELZ", "TRAVELE"):
         return w.pt(ev[1])
     if k == "XONLY":
         return (w.pt(ev[1])[0], f["y"])
